@@ -206,6 +206,13 @@ func expand(env *fw.Env, src string, raw json.RawMessage) []json.RawMessage {
 		if (h>>8)%5 == 0 {
 			sp.Via = "tunnel"
 		}
+		if (h>>16)%3 == 0 {
+			// peers that react to what they are told; if nobody has ended yet, one side ends first - by a
+			// clean half-close, a close or a failure
+			sp.React = true
+			sp.Who = []string{"A", "B"}[(h>>18)%2]
+			sp.Cause = []string{"error", "halfclose", "close", "error"}[(h>>19)%4]
+		}
 		return []json.RawMessage{fw.MustJSON(sp)}
 	case "gen:udp-t", "gen:udp-u":
 		num, den := uint64(1), uint64(1)
@@ -255,6 +262,33 @@ func extras(env *fw.Env) []json.RawMessage {
 		// the tunnel the way the callers build it: the real adapter around one full-duplex conn
 		add(scriptSpec{Kind: "bfree", Via: via, ShA: []string{"direct-cw", "direct-closer"}[i%2], ShB: "same-closer", Ops: ops})
 		add(scriptSpec{Kind: "bfree", Via: "direct", ShA: "direct-cw", ShB: shapesB[i%len(shapesB)], Ops: ops})
+	}
+	// END CAUSE x PEER BEHAVIOUR: one side ends by a clean half-close, a close or a failure (scripted: Read
+	// error; real TCP: RST via SO_LINGER 0) - at the start, after data both ways, with much data in flight -
+	// while the other side only waits, is still sending, or has half-closed already.  The peers REACT: they
+	// close when they are told; the relay must tell them and return.
+	for ci, cause := range []string{"error", "halfclose", "close"} {
+		for wi, who := range []string{"A", "B"} {
+			oth := otherEnd(who)
+			variants := [][]sop{
+				{E(who, cause)}, // passive peer, nothing sent at all
+				{S("A", 700), S("B", 900), W, E(who, cause)},                              // passive peer after data both ways
+				{S(who, 300000), S(oth, 5), E(who, cause)},                               // much data in flight when the side ends
+				{S("A", 700), S("B", 900), W, E(who, cause), S(oth, 40000), S(oth, 1)},  // the other side is still sending
+				{S("A", 700), S("B", 900), W, E(oth, "halfclose"), W, E(who, cause)},     // the other side has half-closed already
+			}
+			for vi, ops := range variants {
+				shB := []string{"direct-cw", "same-cw", "split-cw"}[(ci+wi+vi)%3]
+				via := []string{"direct", "tunnel"}[(ci+vi)%2]
+				add(scriptSpec{Kind: "bfree", Via: via, ShA: "direct-cw", ShB: shB, React: true, Sc: "reactivePeers", Ops: ops})
+				if vi != 2 || cause == "halfclose" { // (real TCP: a reset - also the one a close with unread data provokes - discards what is in flight: not judgeable)
+					add(scriptSpec{Kind: "tcp", Via: via, React: true, Sc: "reactivePeers", Ops: ops})
+				}
+			}
+			// a conn that cannot be half-closed on the other side: the driver ends that peer itself
+			add(scriptSpec{Kind: "bfree", Via: "direct", ShA: []string{"direct-cw", "direct-closer"}[wi], ShB: "same-closer", React: true, Sc: "reactivePeers",
+				Ops: []sop{S("A", 700), S("B", 900), W, E(who, cause)}})
+		}
 	}
 	// time passes while one direction is finished and the other keeps sending (scripted clock)
 	F := func(n int) sop { return sop{Op: "flow", N: n} }
@@ -597,6 +631,12 @@ func startBackground(env *fw.Env) {
 	mnf.expect = []string{"Invariant BMonitorOnlyIdle is violated"}
 	usd := mk("udp:deviation(show_sockdeadline cfg):absolute read deadline on the UDP socket", "Relay_udp_show_sockdeadline.cfg", nil, true)
 	usd.expect = []string{"Invariant UNoSpuriousEnd is violated"}
+	nsg := mk("bidi:seeded-fault(show_nosignal cfg):half-close only after a clean end of the direction", "Relay_bidi_show_nosignal.cfg", nil, true)
+	nsg.expect = []string{"Invariant BToldSafe is violated"}
+	nsl := mk("bidi:seeded-fault(show_nosignal_live cfg):the passive peer is never told, the relay never returns", "Relay_bidi_show_nosignal_live.cfg", nil, true)
+	nsl.expect = []string{"Temporal propert"}
+	bgRuns = append(bgRuns, nsg, nsl,
+		mk("bidi:end cause x reacting peers(told cfg):the other side is told whatever ended a direction; one side ending suffices to return", "Relay_bidi_told.cfg", nil, false))
 	bgRuns = append(bgRuns, wdl, sdl, mnf, usd,
 		mk("bidi:tunnel idle monitor(monitor cfg):closes only after IdleMax ticks without data movement", "Relay_bidi_monitor.cfg", nil, false))
 	nif := mk("udp:seeded-fault(show_noinnerflush cfg):no flush inside the unpack loop, batch writer with BatchSize slots", "Relay_udp_show_noinnerflush.cfg", nil, true)
@@ -756,6 +796,25 @@ func selfTest(env *fw.Env, accepted []*fw.Trace) []*fw.Trace {
 				c := cloneEvents(evs)
 				c[len(c)-1] = fw.Event{"ev": "Hung"}
 				emit("bidi-hung", t, c)
+			}
+			if cwv := idx("RelayCloseWrite"); len(cwv) > 0 && evs[0]["sc"] == "reactivePeers" {
+				// the passive peer is never told: cut the trace before the relay's first half-close; the call hangs
+				k := cwv[0]
+				e, _ := evs[k]["e"].(string)
+				open, otherOver := true, false
+				for _, ev := range evs[:k] {
+					if ev["ev"] == "EpEnd" {
+						if ev["e"] == e {
+							open = false
+						} else {
+							otherOver = true
+						}
+					}
+				}
+				if open && otherOver {
+					c := append(cloneEvents(evs[:k]), fw.Event{"ev": "Hung"})
+					emit("never-told", t, c)
+				}
 			}
 			if rc := idx("RelayClose"); len(rc) > 0 && len(idx("ReadEnd"))+len(idx("WriteErr")) > 0 {
 				// the relay closing a conn before the directions are over
